@@ -578,7 +578,8 @@ func (fr *Frame) appendBuiltin(site ssa.Instruction, c *ssa.CallCommon, reach T,
 		// forall k: r[k] = (off+slen <= k < off+newLen) ? src[toff + k - off - slen] : (fits ? old[k] : (0<=k<slen ? old[soff+k] : default))
 		k := T{"k", "Int"}
 		inNew := and(app("Bool", "<=", app("Int", "+", off, slen), k), app("Bool", "<", k, app("Int", "+", off, newLen)))
-		srcv := sel(srcRow, app("Int", "-", app("Int", "+", toff, k), app("Int", "+", off, slen)))
+		// index written as toff + (k - (off+slen)) so that quantifiers over "s[i]" (= row[off_s + i]) match syntactically
+		srcv := sel(srcRow, app("Int", "+", toff, app("Int", "-", k, app("Int", "+", off, slen))))
 		oldv := ite(fits, sel(oldRow, k), sel(oldRow, app("Int", "+", soff, k)))
 		guard := or(fits, and(app("Bool", "<=", intLit(0), k), app("Bool", "<", k, newLen)))
 		ex.emit(fmt.Sprintf("(assert (forall ((k Int)) (! (=> %s (= (select %s k) %s)) :pattern ((select %s k)))))", guard.s, r.s, ite(inNew, srcv, oldv).s, r.s))
